@@ -21,8 +21,8 @@ import vlib
 
 TAG = "x07"
 CFG = {
-    "quick": dict(mc="MC_NumText.cfg", gen="Gen_NumText.cfg", nrand=10, chunks=8, a_stride=3, all_fns=False),
-    "thorough": dict(mc="MC_NumText_t.cfg", gen="Gen_NumText_t.cfg", nrand=120, chunks=12, a_stride=1, all_fns=True),
+    "quick": dict(mc="MC_NumText.cfg", gen="Gen_NumText.cfg", nrand=8, chunks=8, a_chunks=3, a_stride=4, all_fns=False, reps=1),
+    "thorough": dict(mc="MC_NumText_t.cfg", gen="Gen_NumText_t.cfg", nrand=120, chunks=12, a_chunks=8, a_stride=1, all_fns=True, reps=3),
 }
 JVM_SMALL = {"JAVA_TOOL_OPTIONS": "-XX:ParallelGCThreads=2 -XX:CICompilerCount=2"}
 JVM_MID = {"JAVA_TOOL_OPTIONS": "-XX:ParallelGCThreads=4 -XX:CICompilerCount=3"}
@@ -348,6 +348,14 @@ def float_values(rng, t, nrand):
             out.add(struct.pack("<d", x).hex())
         else:
             out.add(ldbl_of(x))
+    if t == "e":
+        # exact powers of ten near 10^+-4900 cost TLC ~0.5 s per judgement: a bounded number of extreme exponents
+        def extreme(hx):
+            ex = int.from_bytes(bytes.fromhex(hx)[8:10], "little") & 0x7fff
+            return ex != 32767 and abs(ex - 16383) > 1100
+        ext = sorted(h for h in out if extreme(h))
+        keep = set(rng.sample(ext, min(len(ext), 6 + nrand // 3)))
+        out = {h for h in out if h in keep or not extreme(h)}
     return sorted(out)
 
 
@@ -361,7 +369,7 @@ def gen_print_cases(rng, cfg):
         for v in vals:
             hx = int_bytes(v, bits)
             digs = len(str(abs(v))) + (1 if v < 0 else 0)
-            for _ in range(2 if len(vals) > 150 else 3):
+            for _ in range(cfg["reps"] if len(vals) > 150 else cfg["reps"] + 1):
                 fl = rng.choice(iflags)
                 wd = rng.choice([0, 0, 0, 1, 5, digs, digs + 1, 20, 64, 255])
                 left = rng.choice([0, 1, 2, digs - 1, digs, digs + 1, digs + 2, 12, 17, 18, 23, 24, wd, wd + 1, 64, 65, 66, 256, 257, 300])
@@ -370,14 +378,14 @@ def gen_print_cases(rng, cfg):
             # exact fit / one short, every radix
             for fl in (0, 1, 2, 256):
                 for left in (digs, digs + 1):
-                    if rng.random() < 0.25:
+                    if rng.random() < 0.08 * cfg["reps"]:
                         cases.append({"a": "print", "arg": {"api": "num", "src": t, "bytes": hx, "flags": fl, "width": 0, "dec": 0, "left": left}})
     fflags = [0, 0, 32, 32, 16, 256, 288, 272, 512, 544, 48, 64, 128, 1]
     rtdec = {"f": [8, 9], "d": [16, 17], "e": [20, 21]}
     for t in FLOATS:
         vals = float_values(rng, t, nr)
         for hx in vals:
-            for _ in range(3):
+            for _ in range(cfg["reps"]):
                 fl = rng.choice(fflags)
                 dec = rng.choice([0, 0, 1, 2, 3, 5, 6, 8, 9, 15, 16, 17, 18, 20, 21, 30, 40, 100, 126, 255])
                 wd = rng.choice([0, 0, 0, 10, 30, 255])
@@ -538,7 +546,7 @@ def gen_range_cases(rng, cfg):
                 ranges.add((lo, max(min(v - 1, hi), lo)))
                 for (a, b) in sorted(ranges):
                     for form in ("%d", "0x%x", " %d", "%dz"):
-                        if form != "%d" and rng.random() > 0.3:
+                        if rng.random() > (0.6 if form == "%d" else 0.2) * (1 if cfg["reps"] > 1 else 0.5):
                             continue
                         txt = (form % v) if v >= 0 or "x" not in form else "-" + (form % -v)
                         cases.append({"a": "rtext", "arg": {"fn": fn, "dst": dst, "base": 0, "chars": list(txt.encode()),
@@ -554,6 +562,8 @@ def gen_range_cases(rng, cfg):
     for dst in FLOATS:
         for t in ftexts:
             for (a, b) in franges:
+                if cfg["reps"] == 1 and rng.random() > 0.4:
+                    continue
                 cases.append({"a": "rtext", "arg": {"fn": FNS[dst][0], "dst": dst, "base": 0, "chars": list(t.encode()), "lo": a, "hi": b}})
     return cases
 
@@ -673,7 +683,7 @@ def run_part(ck, tier):
     # every record of binding A is judged by TLC as well (stride in the quick tier; refusals carry no judgement)
     asel = [i for i, e in enumerate(aevents) if e["a"] != acases[i]["a"] or (e.get("obs") or {}).get("r") != "refused"]
     asel = asel[::cfg["a_stride"]]
-    f_vala = pool.submit(validate_events, [aevents[i] for i in asel], cfg["chunks"], "Trace_NumText_A")
+    f_vala = pool.submit(validate_events, [aevents[i] for i in asel], cfg["a_chunks"], "Trace_NumText_A")
     n_des = n_des_eq = n_acc = n_must = 0
     nontriv = set()
     for st, rec in zip(acases, arecs):
